@@ -221,9 +221,9 @@ def _lut_functions(repo, rep):
 
 
 REVIEWED_ADDITIONS = {
-    ("downscale_multiplier_int32_to_int16", "a + rounding_offset"): "reached only below int32 max - rounding_offset (the saturating branch returns first)",
-    ("exp_on_interval_between_negative_one_quarter_and_0_excl", "a + (1 << offset)"): "a lies in (-1/4, 0] in Q0.31: the sum stays below 2^29",
-    ("exp_on_negative_values", "a_mod_quarter_minus_one_quarter - a"): "difference of two values in [-2^31, 0]: magnitude below 2^31, formed from results of & and - on Python / 64-bit intermediates",
+    ("downscale_multiplier_int32_to_int16", "a", "+"): "reached only below int32 max - rounding_offset (the saturating branch returns first)",
+    ("exp_on_interval_between_negative_one_quarter_and_0_excl", "a", "+"): "a lies in (-1/4, 0] in Q0.31: the sum stays below 2^29",
+    ("exp_on_negative_values", "a", "-"): "difference of two values in [-2^31, 0]: magnitude below 2^31, formed from results of & and - on Python / 64-bit intermediates",
 }
 
 
@@ -349,7 +349,8 @@ def run(repo, rep):
                     isinstance(node, ast.UnaryOp) and isinstance(node.op, ast.USub) and isinstance(node.operand, ast.Name) and node.operand.id in value_tainted):
                 # additions / negations of a caller-typed operand overflow only at the ends of its type: the existing ones are reviewed (each is
                 # guarded by a range test or works on a bounded domain); a new one is reported
-                key = (q, str(norm(node)))
+                opnd = node.operand.id if isinstance(node, ast.UnaryOp) else next(o.id for o in (node.left, node.right) if isinstance(o, ast.Name) and o.id in value_tainted)
+                key = (q, opnd, "neg" if isinstance(node, ast.UnaryOp) else ("+" if isinstance(node.op, ast.Add) else "-"))
                 n += 1
                 if key in REVIEWED_ADDITIONS:
                     rep.ok("C19-c", f"{FP}:{q}", str(norm(node))[:80], "reviewed: " + REVIEWED_ADDITIONS[key])
